@@ -279,13 +279,18 @@ DPratt(g, X, p, c, env, minp) ==
 (* sv = <<saved position, emissions at the time>>.  The value is the span from the start to the final position.           *)
 DProg(g, X, p0, c, env, i, q, acc) ==       \* acc = [em, fl, sv]
   LET ins == g[2] IN
-  IF i > Len(ins) THEN LET sp == XSpan(X, p0, q) IN R(TRUE, q, VSp(sp[1], sp[2]), acc.em, acc.fl)
+  IF i > Len(ins) THEN LET sp == XSpan(X, p0, q) IN
+                       R(TRUE, q, IF acc.vals = <<>> THEN VSp(sp[1], sp[2]) ELSE VP(VL(acc.vals), VSp(sp[1], sp[2])), acc.em, acc.fl)
   ELSE LET o == ins[i]
            t == XTok(X, q)
            fail == Fail(acc.fl \cup {EvUser(X, p0, p0, q, "cu")})
-       IN CASE o[1] = "n" -> IF t = "" THEN fail ELSE DProg(g, X, p0, c, env, i + 1, XNxt(X, q), acc)
+       IN CASE o[1] \in {"n", "nm"} -> IF t = "" THEN fail ELSE DProg(g, X, p0, c, env, i + 1, XNxt(X, q), acc)
+            \* observers: the span since the remembered position, the tokens before the cursor, the context
+            [] o[1] = "ss" -> LET sp == XSpan(X, acc.sv[1], q) IN DProg(g, X, p0, c, env, i + 1, q, [acc EXCEPT !.vals = Append(@, VSp(sp[1], sp[2]))])
+            [] o[1] = "st" -> DProg(g, X, p0, c, env, i + 1, q, [acc EXCEPT !.vals = Append(@, VI(q))])
+            [] o[1] = "cx" -> DProg(g, X, p0, c, env, i + 1, q, [acc EXCEPT !.vals = Append(@, c)])
             [] o[1] = "s" -> DProg(g, X, p0, c, env, i + 1, IF t = "" THEN q ELSE XNxt(X, q), acc)
-            [] o[1] = "p" -> IF t = o[2] THEN DProg(g, X, p0, c, env, i + 1, q, acc) ELSE fail
+            [] o[1] \in {"p", "pm"} -> IF t = o[2] THEN DProg(g, X, p0, c, env, i + 1, q, acc) ELSE fail
             [] o[1] = "sv" -> DProg(g, X, p0, c, env, i + 1, q, [acc EXCEPT !.sv = <<q, Len(acc.em)>>])
             [] o[1] = "rw" -> DProg(g, X, p0, c, env, i + 1, acc.sv[1], [acc EXCEPT !.em = SubSeq(@, 1, acc.sv[2])])
             [] o[1] = "f" -> fail
@@ -315,7 +320,7 @@ D(g, X, p, c, env) ==
          LET a == XAdvK(X, p, g[2], 0) IN
          IF a[2] = g[2] /\ g[3] THEN R(TRUE, a[1], VC(g[2]), <<>>, {})
          ELSE Fail({EvUser(X, p, p, a[1], "cu")})
-    [] o = "prog" -> DProg(g, X, p, c, env, 1, p, [em |-> <<>>, fl |-> {}, sv |-> <<p, 0>>])
+    [] o = "prog" -> DProg(g, X, p, c, env, 1, p, [em |-> <<>>, fl |-> {}, sv |-> <<p, 0>>, vals |-> <<>>])
     [] o = "newline" ->
          IF t = "R" THEN R(TRUE, IF XTok(X, p + 1) = "N" THEN p + 2 ELSE p + 1, VU, <<>>, {})
          ELSE IF t \in ClsNewline THEN R(TRUE, p + 1, VU, <<>>, {})
